@@ -252,6 +252,17 @@ pub fn tree_battery<T: Sym>(rep: &mut Rep, t: &dyn DynTree<T>, m: &SeqModel, rng
             }
         }
     }
+    // get at the occurrences of the rarest symbols (sampled positions almost never hit them in a long input)
+    {
+        let mut rare: Vec<u128> = m.syms.clone();
+        rare.sort_by_key(|s| (m.count(*s), *s));
+        for &c in rare.iter().take(8) {
+            let occ = &m.occ[&c];
+            for &i in [occ[0], occ[occ.len() - 1], occ[occ.len() / 2]].iter() {
+                chk!(rep, "get", (i, "occurrence of a rare symbol"), Exp::Is(Some(T::from_u128(c))), t.get_(i));
+            }
+        }
+    }
     if o.invalid {
         for i in [n, n + 1, n + 255, n + 256, n + 2048].into_iter().chain(BAD_POSITIONS) {
             if i >= n {
